@@ -65,7 +65,9 @@ def strategy(draw):
         lo, hi = hi, lo            # limits may be given in either order (the code sorts them)
     return dict(f0t=f0t, npts=npts, bumps=bumps, sd=sd, lw=draw(gen.log_floats(5, 600)), nw=int(round(draw(gen.log_floats(1, 400)))),
                 fstd=fstd, range=[lo, hi], verbose=draw(st.sampled_from([0, 1, 2])),
-                lw_factor=draw(gen.floats(1.0, 20.0)), nw_add=draw(st.integers(0, 300)), fstd_factor=draw(gen.floats(0.01, 1.0)))
+                lw_factor=draw(gen.floats(1.0, 20.0)), nw_add=draw(st.integers(0, 300)), fstd_factor=draw(gen.floats(0.01, 1.0)),
+                # curves tabulated by period (or requested with descending centre frequencies) are stored in descending order
+                descending=draw(gen.chance(5)))
 
 
 def build(case):
@@ -221,6 +223,10 @@ def check_case(case):
     lw, nw, fstd = case["lw"], case["nw"], case["fstd"]
     ref = reference(f, mc, sd, lw, nw, fstd, rng)
     labels = []
+    if case.get("descending"):
+        f_up, mc_up, sd_up = f, mc, sd
+        f, mc, sd = f[::-1].copy(), mc[::-1].copy(), sd[::-1].copy()       # as handed to the library; the reference used the ascending view
+        labels.append("descending-storage")
     if ref is None:
         return dict(labels=["snap-ambiguous"], nontrivial=False)
     if ref == "no-peak":
